@@ -85,10 +85,19 @@ class CallGraph:
                 if isinstance(st, FuncInfo):
                     r.add(st.qualname)
                     self.escapes.add(st.qualname)
-        # nested defs decorated: decorated closures escape through their decorator
-        for nf in f.nested.values():
-            if nf.decorators:
+        # nested defs decorated: decorated closures escape through their decorator, and the
+        # decorator itself is called here
+        for nf in list(f.nested.values()) + list(f.nested_classes.values()):
+            decs = nf.decorators if isinstance(nf, FuncInfo) else list(nf.node.decorator_list)
+            if decs and isinstance(nf, FuncInfo):
                 self.escapes.add(nf.qualname)
+            for d in decs:
+                t = d.func if isinstance(d, ast.Call) else d
+                st = self.m.resolve_expr_static(f, t)
+                if isinstance(st, FuncInfo):
+                    e.add(st.qualname)
+                elif st is None:
+                    co.append(d)
 
     # ----------------------------------------------------------------- queries
     def reachable(self, roots, follow_refs=True, dispatch=True, stop=None) -> dict:
